@@ -41,7 +41,7 @@ fn load_routes() -> Vec<RouteRow> {
     for line in text.lines() {
         if line.starts_with('#') || line.trim().is_empty() { continue; }
         let f: Vec<&str> = line.split('\t').collect();
-        if f[0] == "doc" { continue; }
+        if f[0] == "doc" || f[0] == "main" { continue; }
         out.push(RouteRow {
             idx: out.len(),
             app: f[0].to_string(),
